@@ -285,7 +285,8 @@ Lemma cexchange_spec sent0 now sv1 rekeyed (d c1 : client) o c rest T s' ob :
                  ok (ob_nosend ob) waste sys0 /\
     ok = ob_intact ob /\ ob_rekeyed ob = rekeyed /\
     cs_sent s' = (if ob_nosend ob then sent0 else c :: sent0) /\
-    (ob_nosend ob = true -> ob_sent ob = None) /\ (ob_nosend ob = false -> ob_sent ob <> None).
+    (ob_nosend ob = true -> ob_sent ob = None) /\ (ob_nosend ob = false -> ob_sent ob <> None) /\
+    (ob_intact ob = true -> ob_nosend ob = false).
 Proof.
   intros Hp Hc1 HP HT Hall Hk1 Hk2 [Hage [Hu [Hn [Hh [Hrn [Hrh _]]]]]] H.
   pose proof (P_weak _ _ _ HP HT) as HPnow.
@@ -325,7 +326,8 @@ Proof.
                     ok (ob_nosend ob) waste0 sys0 /\
        ok = ob_intact ob /\ ob_rekeyed ob = rekeyed /\
        cs_sent s' = (if ob_nosend ob then sent0 else c :: sent0) /\
-       (ob_nosend ob = true -> ob_sent ob = None) /\ (ob_nosend ob = false -> ob_sent ob <> None)).
+       (ob_nosend ob = true -> ob_sent ob = None) /\ (ob_nosend ob = false -> ob_sent ob <> None) /\
+       (ob_intact ob = true -> ob_nosend ob = false)).
   { intros sv2 waste req HP2 Hincl Hnx Es Eo. subst s'. split; [|split; [reflexivity|]].
     - unfold CInv. cbn [cs_client cs_server cs_now]. subst c1. cbn [pool c2s s2c].
       split; [exact HP2|]. split; [|intros _; split; assumption].
@@ -394,7 +396,11 @@ Theorem cstep_refines s o s' ob :
             e_skip e = o_skip o /\ e_nosend e = ob_nosend ob /\ e_ok e = ob_intact ob /\
             (e_ke_ok e = true <-> o_ke o <> None) /\
             (ob_sent ob = None <-> s_sent (alpha s') = s_sent (alpha s)) /\
-            (ob_rekeyed ob = true -> pool (cs_client s) = [] /\ o_ke o <> None).
+            (ob_rekeyed ob = true -> pool (cs_client s) = [] /\ o_ke o <> None) /\
+            (ob_sent ob = None -> cs_sent s' = cs_sent s) /\
+            (ob_sent ob <> None -> exists c, cs_sent s' = c :: cs_sent s /\
+                                             (pool (cs_client s) = [] \/ exists r, pool (cs_client s) = c :: r)) /\
+            (ob_intact ob = true -> ob_nosend ob = false /\ ob_sent ob <> None).
 Proof.
   intros [HP [Hall Hkeys]] Hwf H. pose proof Hwf as [Hage [Hu [Hn [Hh [Hrn [Hrh Hke]]]]]].
   unfold cstep in H.
@@ -422,7 +428,7 @@ Proof.
       destruct (cexchange_spec (cs_sent s) now {| sv_prov := p'; sv_next := (nx + keCookies)%nat |} true
                   {| pool := cookies; c2s := k1; s2c := k2 |} {| pool := r; c2s := k1; s2c := k2 |} o x r now s' ob
                   Ecs eq_refl HP' (Z.le_refl _) (make_made p' k nx k1 k2 keCookies Hk) Hk1 Hk2 Hwf H)
-        as [HI [Hnow [ok [waste [Ha [Hok [Hrk [Hsent [Hns1 Hns2]]]]]]]]].
+        as [HI [Hnow [ok [waste [Ha [Hok [Hrk [Hsent [Hns1 [Hns2 Hin]]]]]]]]]].
       split; [exact HI|]. split; [exact Hnow|].
       exists {| e_ke_ok := true; e_ok := ok; e_skip := o_skip o; e_waste := waste; e_nosend := ob_nosend ob |}.
       cbn [e_ke_ok e_ok e_skip e_waste e_nosend].
@@ -438,7 +444,17 @@ Proof.
       { unfold alpha. cbn [s_sent]. rewrite Hsent. destruct (ob_nosend ob) eqn:En; [intros _; apply Hns1; reflexivity|].
         cbn [map]. intros E. exfalso. revert E. generalize (map cid (cs_sent s)) (cid x). clear.
         intros l n E. assert (Hl : length (n :: l) = length l) by (rewrite E; reflexivity). cbn in Hl. lia. }
-      intros _. split; [reflexivity|discriminate].
+      split; [intros _; split; [reflexivity|discriminate]|].
+      assert (Hfacts : (ob_sent ob = None -> cs_sent s' = cs_sent s) /\
+            (ob_sent ob <> None -> exists c0, cs_sent s' = c0 :: cs_sent s /\
+                                             (pool (cs_client s) = [] \/ exists r0, pool (cs_client s) = c0 :: r0)) /\
+            (ob_intact ob = true -> ob_nosend ob = false /\ ob_sent ob <> None)).
+      { rewrite Hsent. destruct (ob_nosend ob) eqn:En.
+        - split; [reflexivity|]. split; [intros Hx; exfalso; apply Hx, Hns1; reflexivity|].
+          intros Hi. specialize (Hin Hi). discriminate.
+        - split; [intros Hx; exfalso; exact (Hns2 eq_refl Hx)|].
+          split; [intros _; eexists; split; [reflexivity|left; reflexivity]|]. intros _. split; [reflexivity|apply Hns2; reflexivity]. }
+      exact Hfacts.
     + (* no key exchange possible *)
       assert (Ef : fetch (cs_client s) KeErr = None) by (unfold fetch; rewrite Ep; reflexivity).
       rewrite Ef in H. injection H as Es Eo. subst s' ob.
@@ -452,7 +468,8 @@ Proof.
           rewrite Ep. reflexivity. }
         split; [reflexivity|]. split; [reflexivity|]. split; [reflexivity|].
         split; [split; [discriminate|congruence]|].
-        split; [split; reflexivity|]. discriminate.
+        split; [split; reflexivity|]. split; [discriminate|].
+        split; [reflexivity|]. split; [intros Hx; exfalso; apply Hx; reflexivity|discriminate].
   - (* cookies left: no key exchange *)
     assert (Ef : fetch (cs_client s) KeErr =
                  Some (cs_client s, {| pool := rest; c2s := c2s (cs_client s); s2c := s2c (cs_client s) |}))
@@ -463,7 +480,7 @@ Proof.
     { rewrite Ep. eapply Forall_mono; [|exact Hall]. intros y Hy. eapply made_for_mono; [apply incl_refl| |exact Hy]. cbn. lia. }
     destruct (cexchange_spec (cs_sent s) now sv0 false (cs_client s) _ o c rest (cs_now s) s' ob
                 Ep eq_refl HP HT Hall0 Hk1 Hk2 Hwf H)
-      as [HI [Hnow [ok [waste [Ha [Hok [Hrk [Hsent [Hns1 Hns2]]]]]]]]].
+      as [HI [Hnow [ok [waste [Ha [Hok [Hrk [Hsent [Hns1 [Hns2 Hin]]]]]]]]]].
     split; [exact HI|]. split; [exact Hnow|].
     exists {| e_ke_ok := match o_ke o with Some _ => true | None => false end;
               e_ok := ok; e_skip := o_skip o; e_waste := waste; e_nosend := ob_nosend ob |}.
@@ -479,7 +496,17 @@ Proof.
     { unfold alpha. cbn [s_sent]. rewrite Hsent. destruct (ob_nosend ob) eqn:En; [intros _; apply Hns1; reflexivity|].
       cbn [map]. intros E. exfalso. revert E. generalize (map cid (cs_sent s)) (cid c). clear.
       intros l n E. assert (Hl : length (n :: l) = length l) by (rewrite E; reflexivity). cbn in Hl. lia. }
-    intros E. rewrite Hrk in E. discriminate.
+    split; [intros E; rewrite Hrk in E; discriminate|].
+      assert (Hfacts : (ob_sent ob = None -> cs_sent s' = cs_sent s) /\
+            (ob_sent ob <> None -> exists c0, cs_sent s' = c0 :: cs_sent s /\
+                                             (pool (cs_client s) = [] \/ exists r0, pool (cs_client s) = c0 :: r0)) /\
+            (ob_intact ob = true -> ob_nosend ob = false /\ ob_sent ob <> None)).
+      { rewrite Hsent. destruct (ob_nosend ob) eqn:En.
+        - split; [reflexivity|]. split; [intros Hx; exfalso; apply Hx, Hns1; reflexivity|].
+          intros Hi. specialize (Hin Hi). discriminate.
+        - split; [intros Hx; exfalso; exact (Hns2 eq_refl Hx)|].
+          split; [intros _; eexists; split; [reflexivity|right; eexists; reflexivity]|]. intros _. split; [reflexivity|apply Hns2; reflexivity]. }
+    exact Hfacts.
 Qed.
 
 (* runs *)
@@ -541,54 +568,36 @@ Theorem concrete_pool s o s' ob :
   let n' := length (pool (cs_client s')) in
   (n' <= 8)%nat /\
   (ob_intact ob = true -> (n <= n')%nat /\ (n = 8%nat -> n' = 8%nat) /\ (n = 0%nat -> n' = 8%nat)) /\
-  (ob_intact ob = false -> n <> 0%nat -> ob_sent ob <> None \/ ob_nosend ob = true -> n' = (n - 1)%nat) /\
+  (ob_intact ob = false -> n <> 0%nat -> n' = (n - 1)%nat) /\
   (n = 0%nat -> o_ke o <> None -> ob_intact ob = false -> n' = 7%nat) /\
-  (n = 0%nat -> o_ke o = None -> n' = 0%nat /\ ob_sent ob = None /\ cs_sent s' = cs_sent s) /\
+  (n = 0%nat -> o_ke o = None -> n' = 0%nat /\ ob_sent ob = None) /\
   (ob_sent ob = None -> cs_sent s' = cs_sent s) /\
-  (forall c, ob_sent ob <> None -> exists c, cs_sent s' = c :: cs_sent s).
+  (ob_sent ob <> None -> exists c, cs_sent s' = c :: cs_sent s /\
+                                   (pool (cs_client s) = [] \/ exists r, pool (cs_client s) = c :: r)).
 Proof.
   intros Hr Hwf H n n'.
   destruct (creach_inv s Hr) as [HI Hreach]. pose proof (reachable_inv _ id_inj L _ Hreach) as HAI.
-  destruct (cstep_refines s o s' ob HI Hwf H) as [HI' [_ [e [Ha [_ [Hns [Hok [Hke [Hsent Hrk]]]]]]]]].
+  destruct (cstep_refines s o s' ob HI Hwf H)
+    as [HI' [_ [e [Ha [_ [Hns [Hok [Hke [Hsent [Hrk [Hs1 [Hs2 Hint]]]]]]]]]]]].
   unfold n, n'. rewrite !pool_len, Ha.
   assert (Hz : s_pool (alpha s) = [] <-> length (s_pool (alpha s)) = 0%nat)
     by (destruct (s_pool (alpha s)); cbn; split; congruence || lia).
   split; [apply (pool_le_eight _ id_inj L _ e HAI)|].
   split.
-  { intros Hi. rewrite <- Hok in Hi.
-    assert (Hn : e_nosend e = false).
-    { rewrite Hns. destruct (ob_nosend ob) eqn:En; [|reflexivity]. exfalso.
-      (* an intact reply implies a request *)
-      clear - H Hi Hok En. rewrite Hok in Hi. unfold cstep in H.
-      repeat match type of H with
-             | match ?x with _ => _ end = _ => destruct x eqn:?; try discriminate
-             end; try (injection H as <- <-; cbn in *; congruence).
-      all: unfold cexchange in H;
-        repeat match type of H with
-               | match ?x with _ => _ end = _ => destruct x eqn:?; try discriminate
-               end; try (injection H as <- <-; cbn in *; congruence). }
+  { intros Hi. destruct (Hint Hi) as [Hn Hsome]. rewrite <- Hok in Hi. rewrite <- Hns in Hn.
     split; [apply (success_never_shrinks _ id_inj L Lmax _ e HAI Hi Hn)|].
     split; [intros E; apply (stays_eight _ id_inj L Lmax _ e HAI Hi Hn E)|].
     intros E. apply Hz in E.
     assert (Hk : e_ke_ok e = true).
     { destruct (e_ke_ok e) eqn:Ek; [reflexivity|]. exfalso.
       destruct (kefail_nothing (fun k : nat => k) L (alpha s) e E Ek) as [_ Hs].
-      rewrite <- Ha in Hs. apply Hsent in Hs.
-      (* nothing sent contradicts an intact reply *)
-      clear - H Hi Hok Hs. rewrite Hok in Hi. unfold cstep in H.
-      repeat match type of H with
-             | match ?x with _ => _ end = _ => destruct x eqn:?; try discriminate
-             end; try (injection H as <- <-; cbn in *; congruence).
-      all: unfold cexchange in H;
-        repeat match type of H with
-               | match ?x with _ => _ end = _ => destruct x eqn:?; try discriminate
-               end; try (injection H as <- <-; cbn in *; congruence). }
+      rewrite <- Ha in Hs. apply Hsent in Hs. exact (Hsome Hs). }
     apply (rekey_success _ id_inj L Lmax _ e E Hk Hi Hn). }
   split.
-  { intros Hi Hne Hsn. rewrite <- Hok in Hi.
+  { intros Hi Hne. rewrite <- Hok in Hi.
     apply (loss_pops_one _ id_inj L Lmax _ e HAI).
     - intros E. apply Hz in E. lia.
-    - destruct (e_nosend e) eqn:En; [right; reflexivity|left; exact Hi]. }
+    - left. exact Hi. }
   split.
   { intros E Hk Hi. apply Hz in E. apply (rekey_loss _ id_inj L Lmax _ e E).
     - apply Hke. exact Hk.
@@ -598,34 +607,8 @@ Proof.
     assert (Hk' : e_ke_ok e = false).
     { destruct (e_ke_ok e) eqn:Ek; [|reflexivity]. exfalso. apply (proj1 Hke); [reflexivity|exact Hk]. }
     destruct (kefail_nothing (fun k : nat => k) L (alpha s) e E Hk') as [Hp Hs].
-    rewrite Hp. split; [reflexivity|]. rewrite <- Ha in Hs. pose proof (proj2 Hsent Hs) as Hnone.
-    split; [exact Hnone|].
-    (* nothing sent: the ghost list is unchanged *)
-    clear - H Hnone. unfold cstep in H.
-    repeat match type of H with
-           | match ?x with _ => _ end = _ => destruct x eqn:?; try discriminate
-           end; try (injection H as <- <-; cbn in *; congruence).
-    all: unfold cexchange in H;
-      repeat match type of H with
-             | match ?x with _ => _ end = _ => destruct x eqn:?; try discriminate
-             end; try (injection H as <- <-; cbn in *; congruence). }
-  split.
-  { intros Hnone. clear - H Hnone. unfold cstep in H.
-    repeat match type of H with
-           | match ?x with _ => _ end = _ => destruct x eqn:?; try discriminate
-           end; try (injection H as <- <-; cbn in *; congruence).
-    all: unfold cexchange in H;
-      repeat match type of H with
-             | match ?x with _ => _ end = _ => destruct x eqn:?; try discriminate
-             end; try (injection H as <- <-; cbn in *; congruence). }
-  { intros _ Hsome. clear - H Hsome. unfold cstep in H.
-    repeat match type of H with
-           | match ?x with _ => _ end = _ => destruct x eqn:?; try discriminate
-           end; try (injection H as <- <-; cbn in *; congruence).
-    all: unfold cexchange in H;
-      repeat match type of H with
-             | match ?x with _ => _ end = _ => destruct x eqn:?; try discriminate
-             end; try (injection H as <- <-; cbn in *; first [congruence | eexists; reflexivity]). }
+    rewrite Hp. split; [reflexivity|]. rewrite <- Ha in Hs. exact (proj2 Hsent Hs). }
+  split; [exact Hs1|exact Hs2].
 Qed.
 
 End Refine.
